@@ -3,10 +3,13 @@
 import json, os, subprocess, sys, tempfile, xml.etree.ElementTree as ET
 
 out = tempfile.mktemp(suffix=".junit.xml")
+repo = sys.argv[1] if len(sys.argv) > 1 else "/repo"
 env = dict(os.environ); env.pop("PYXEL_VERIF", None)
+if repo != "/repo":
+    env["PYTHONPATH"] = repo  # import the scratch tree's pyxel instead of the editable install
 cmd = ["/venv/bin/python", "-m", "pytest", "-q", "-p", "no:cacheprovider", "--timeout=900",
        "--continue-on-collection-errors", f"--junitxml={out}"]
-p = subprocess.run(cmd, cwd="/repo", env=env, capture_output=True, text=True)
+p = subprocess.run(cmd, cwd=repo, env=env, capture_output=True, text=True)
 passed = set()
 for tc in ET.parse(out).getroot().iter("testcase"):
     if not any(ch.tag in ("failure", "error", "skipped") for ch in tc):
